@@ -1137,7 +1137,7 @@ func (fr *Frame) callWrites(c *ssa.CallCommon, env map[ssa.Value]Val, fv map[*ss
 				}
 			}
 			for i, p := range calleeParamNames(callee, sp) {
-				if p == name && i < len(c.Args) {
+				if (p == name || p == vc.W.renamed(callee, name)) && i < len(c.Args) {
 					mark(c.Args[i])
 				}
 			}
